@@ -269,7 +269,38 @@ pub fn nudge_float(v: &mut V, rng: &mut Rng) {
 
 const ATTRS: &[u8] = b"CPWSLXIQABZDYMNE";
 
+/// a descriptor that is NOT in any table but collides with a recognised one under a
+/// careless comparison: attribute with the same low byte / low 7 bits / other case /
+/// full-width form, or band with the same low bits
+pub fn alias_sig(rng: &mut Rng) -> (u8, char) {
+    loop {
+        let c = rng.usize_below(7);
+        let pos = rng.range(1, 32) as u8;
+        if let Some((b, a)) = sig::pos_to_sig(c, pos) {
+            let au = a as u32;
+            let cand: (u32, u32) = match rng.below(8) {
+                0 => (b as u32, au + 0x100 * rng.range(1, 0xFF) as u32),
+                1 => (b as u32, au + 0x10000 * rng.range(1, 0x10) as u32),
+                2 => (b as u32, au + 0x80),
+                3 => (b as u32, au ^ 0x20),               // other case
+                4 => (b as u32, 0xFF21 + (au - 0x41)),    // full-width capital letter
+                5 => (b as u32 + 8 * rng.range(1, 30) as u32, au),
+                6 => (b as u32 + 0x80, au),
+                _ => (b as u32 + 16, au),
+            };
+            if cand.0 <= 255 {
+                if let Some(ch) = char::from_u32(cand.1) {
+                    return (cand.0 as u8, ch);
+                }
+            }
+        }
+    }
+}
+
 pub fn random_sig(rng: &mut Rng) -> (u8, char) {
+    if rng.chance(1, 5) {
+        return alias_sig(rng);
+    }
     match rng.below(10) {
         0..=5 => {
             // a descriptor recognised by some constellation
@@ -345,12 +376,15 @@ fn mut_seq(xs: &mut Vec<V>, rng: &mut Rng, tpl: &Templates, c: Ctxt) -> &'static
             let target = *rng.pick(&[1usize, 2, 3, 4, 7, 8, 15, 16, 31, 32, 39, 40, 60, 61, 63, 64, 65, 390, 391]);
             let tplv = xs.first().cloned().or_else(|| tpl.elem.get(&c).cloned());
             if let Some(t) = tplv {
+                // half of the time exact clones (many entries with the same key), otherwise
+                // the first integer of each clone is varied so that keys differ
+                let vary = rng.bool();
                 while xs.len() < target {
                     let mut e = if xs.is_empty() || rng.bool() { t.clone() } else { xs[rng.usize_below(xs.len())].clone() };
                     // vary the clone a little so that keys differ
                     let mut cnt = 0;
                     walk_mut(&mut e, c, &mut |node, site, _| {
-                        if site == Site::Int && cnt == 0 {
+                        if vary && site == Site::Int && cnt == 0 {
                             int_set(node, rng.range(0, 70) as i128);
                             cnt += 1;
                         }
